@@ -180,6 +180,17 @@ def analyse_view(b):
                     base = b.term_of_place({"l": p["l"], "p": p["p"][:k]})
                     if is_map_slice(base):
                         sites.append({"kind": "index", "block": bi, "idx": b.term_of_local(e["idx"]), "sp": st["sp"]})
+    # an element read used directly as a `match` scrutinee
+    for bi in sorted(b.reachable()):
+        t = b.blocks[bi]["term"]
+        if t["t"] == "switch":
+            p = operand_place(t["discr"])
+            if p:
+                for k, e in enumerate(p["p"]):
+                    if isinstance(e, dict) and "idx" in e:
+                        base = b.term_of_place({"l": p["l"], "p": p["p"][:k]})
+                        if is_map_slice(base):
+                            sites.append({"kind": "index", "block": bi, "idx": b.term_of_local(e["idx"]), "sp": t["sp"]})
     for bi, t in b.calls():
         name = callee_name(t)
         w = callee_written(t)
